@@ -7,6 +7,10 @@ TYPES = [
 INS = "src/instruction.rs"
 CF = "src/instruction/control_flow/"
 TYPES += [
+    # the real `Type` enum (FunctionType / MultiType / StructType stay opaque in the prelude): bodies may construct and compare types
+    dict(name="Type", src="src/variable/type.rs", path=[("enum", "Type")]),
+]
+TYPES += [
     dict(name="ExecStop", src=INS, path=[("enum", "ExecStop")]),
     dict(name="ExecResult", src=INS, semi=("type", "ExecResult")),
     dict(name="From<ExecError> for ExecStop", src=INS, path=[("impl", "From<ExecError> for ExecStop")],
